@@ -241,22 +241,50 @@ struct St {
     outcomes: BTreeSet<(u64, Option<u64>, Option<u64>)>,
 }
 
+thread_local! {
+    static RT: tokio::runtime::Runtime = tokio::runtime::Builder::new_current_thread().build().expect("runtime");
+}
+
 fn check_history(st: &mut St, hist: &[Op], model: &Model) {
+    check_history_in(st, hist, model, false);
+    // environment deviation: the same history inside a tokio task whose cooperative budget is
+    // used up (every budgeted poll then answers Pending); waiting for data would spin there
+    if !hist.contains(&Op::WaitForData) {
+        check_history_in(st, hist, model, true);
+    }
+}
+
+fn check_history_in(st: &mut St, hist: &[Op], model: &Model, budget_exhausted: bool) {
     let mut w = World::new();
     let mut seen: Vec<(u64, Option<u64>, Option<u64>)> = Vec::new();
-    for o in hist {
-        w.apply(*o);
-        st.transitions += 1;
-        for e in w.sink.drain() {
-            let t = to_test_entry(&e);
-            let get = |k: &str| t.metrics.get(k).map(|m| m.as_u64());
-            seen.push((get("a").unwrap_or(u64::MAX), get("n"), get("m")));
+    let mut run = |w: &mut World, st: &mut St| {
+        for o in hist {
+            w.apply(*o);
+            st.transitions += 1;
+            for e in w.sink.drain() {
+                let t = to_test_entry(&e);
+                let get = |k: &str| t.metrics.get(k).map(|m| m.as_u64());
+                seen.push((get("a").unwrap_or(u64::MAX), get("n"), get("m")));
+            }
         }
+    };
+    if budget_exhausted {
+        RT.with(|rt| {
+            rt.block_on(async {
+                for _ in 0..128 {
+                    tokio::task::consume_budget().await;
+                }
+                run(&mut w, st);
+            })
+        });
+    } else {
+        run(&mut w, st);
     }
+    let env = if budget_exhausted { ":tokio-budget-exhausted" } else { "" };
     let expect: Vec<_> = model.appended.into_iter().collect();
-    let replay = || json!({"history": hist.iter().map(|o| format!("{o:?}")).collect::<Vec<_>>(), "received (a,n,m)": format!("{seen:?}"), "expected": format!("{expect:?}")});
+    let replay = || json!({"history": hist.iter().map(|o| format!("{o:?}")).collect::<Vec<_>>(), "received (a,n,m)": format!("{seen:?}"), "expected": format!("{expect:?}"), "environment": if budget_exhausted { "inside a tokio task with its cooperative budget used up" } else { "plain thread" }});
     for p in &w.problems {
-        st.v.add(format!("seq:{p}"), format!("after {hist:?}: {p}"), replay());
+        st.v.add(format!("seq:{p}{env}"), format!("after {hist:?}: {p}"), replay());
     }
     if seen != expect {
         let what = if seen.len() > expect.len() && expect.is_empty() { "appended-too-early" }
@@ -266,7 +294,7 @@ fn check_history(st: &mut St, hist: &[Op], model: &Model) {
             else if (seen[0].1.is_none() && expect[0].1.is_some()) || (seen[0].2.is_none() && expect[0].2.is_some()) { "slot-value-lost" }
             else if (seen[0].1.is_some() && expect[0].1.is_none()) || (seen[0].2.is_some() && expect[0].2.is_none()) { "slot-value-unexpectedly-present" }
             else { "slot-value-stale" };
-        st.v.add(format!("seq:{what}"), format!("after {hist:?} the sink received {seen:?}, the statement predicts {expect:?}"), replay());
+        st.v.add(format!("seq:{what}{env}"), format!("after {hist:?} the sink received {seen:?}, the statement predicts {expect:?}"), replay());
     }
     for s in seen {
         st.outcomes.insert(s);
